@@ -116,7 +116,11 @@ func (g *FuncGen) execCall(x *ssa.Call, st *State) error {
 		if err != nil {
 			return fmt.Errorf("%s: call to %s: requires %s: %v", g.fname, c.Key, cl.Src, err)
 		}
-		o := g.oblige("pre", shortKey(c.Key)+fmt.Sprintf(".%d", i+1), st.reach, t, "precondition of "+shortKey(c.Key)+": "+cl.Src, pos)
+		lab := ""
+		if cl.Label == "inferred" {
+			lab = " [inferred]"
+		}
+		o := g.oblige("pre", shortKey(c.Key)+fmt.Sprintf(".%d", i+1), st.reach, t, "precondition of "+shortKey(c.Key)+lab+": "+cl.Src, pos)
 		_ = o
 	}
 	samePkg := g.pkg != nil && cpkg != nil && g.pkg.Path() == cpkg.Path()
